@@ -653,9 +653,13 @@ bool ObjectFile::writeAttributes(File &objectFile)
 		}
 	}
 
+	// The data only reach the file now: when that fails (disk full) the
+	// object has not been stored
+	bool flushed = objectFile.flush();
+
 	objectFile.unlock();
 
-	return true;
+	return flushed;
 }
 
 // Write the object to background storage
